@@ -1,6 +1,239 @@
-//! C18: in-process language server histories (filled in below)
-use serde_json::{json, Value};
+//! C18: run the real `IncanLanguageServer` (tower-lsp service + JSON-RPC framing over in-memory pipes) on a
+//! current-thread tokio runtime with paused (virtual) time, replay a burst of client messages, and return the
+//! complete client-boundary history.  The history checker lives in lib/c18.py.
 
-pub fn lsp(_req: &Value) -> Value {
-    json!({"error": "not implemented"})
+use serde_json::{json, Value};
+use std::sync::{Arc, Mutex};
+use std::time::Duration;
+use tokio::io::{AsyncReadExt, AsyncWriteExt, DuplexStream};
+use tokio::sync::Notify;
+use tower_lsp::{LspService, Server};
+
+use incan::lsp::IncanLanguageServer;
+
+async fn send(w: &mut DuplexStream, msg: &Value) {
+    let body = serde_json::to_vec(msg).expect("json");
+    let head = format!("Content-Length: {}\r\n\r\n", body.len());
+    w.write_all(head.as_bytes()).await.expect("write head");
+    w.write_all(&body).await.expect("write body");
+    w.flush().await.expect("flush");
+}
+
+/// Read one framed message; None on EOF.
+async fn recv(r: &mut DuplexStream) -> Option<Value> {
+    let mut header = Vec::new();
+    let mut b = [0u8; 1];
+    loop {
+        match r.read(&mut b).await {
+            Ok(0) | Err(_) => return None,
+            Ok(_) => header.push(b[0]),
+        }
+        if header.ends_with(b"\r\n\r\n") {
+            break;
+        }
+    }
+    let text = String::from_utf8_lossy(&header);
+    let mut len = 0usize;
+    for line in text.split("\r\n") {
+        if let Some(v) = line.strip_prefix("Content-Length:") {
+            len = v.trim().parse().unwrap_or(0);
+        }
+    }
+    let mut body = vec![0u8; len];
+    if r.read_exact(&mut body).await.is_err() {
+        return None;
+    }
+    serde_json::from_slice(&body).ok()
+}
+
+struct Shared {
+    log: Mutex<Vec<Value>>, // {"seq", "dir", "t", "msg"}
+    notify: Notify,
+}
+
+fn push(sh: &Shared, dir: &str, msg: Value) {
+    let mut l = sh.log.lock().unwrap();
+    let seq = l.len();
+    let t = tokio::time::Instant::now();
+    let _ = t;
+    l.push(json!({"seq": seq, "dir": dir, "msg": msg}));
+    drop(l);
+    sh.notify.notify_waiters();
+}
+
+fn count_publishes(sh: &Shared) -> usize {
+    sh.log
+        .lock()
+        .unwrap()
+        .iter()
+        .filter(|e| e["dir"] == "s2c" && e["msg"]["method"] == "textDocument/publishDiagnostics")
+        .count()
+}
+
+fn has_response(sh: &Shared, id: i64) -> bool {
+    sh.log
+        .lock()
+        .unwrap()
+        .iter()
+        .any(|e| e["dir"] == "s2c" && e["msg"]["id"] == json!(id) && e["msg"].get("method").is_none())
+}
+
+async fn wait_until<F: Fn() -> bool>(sh: &Shared, cond: F, virtual_ms: u64) -> bool {
+    let deadline = tokio::time::Instant::now() + Duration::from_millis(virtual_ms);
+    loop {
+        if cond() {
+            return true;
+        }
+        let n = sh.notify.notified();
+        if cond() {
+            return true;
+        }
+        tokio::select! {
+            _ = n => {}
+            _ = tokio::time::sleep_until(deadline) => { return cond(); }
+        }
+    }
+}
+
+async fn run_history(req: Value) -> Value {
+    let delays: Vec<(String, i32, u64)> = req["delays"]
+        .as_array()
+        .map(|a| {
+            a.iter()
+                .map(|d| (d[0].as_str().unwrap_or("").to_string(), d[1].as_i64().unwrap_or(0) as i32, d[2].as_u64().unwrap_or(0)))
+                .collect()
+        })
+        .unwrap_or_default();
+    #[cfg(incan_verif)]
+    incan::lsp::verif::set_delays(delays);
+    #[cfg(not(incan_verif))]
+    let _ = delays;
+
+    let bp_ms = req["backpressure_ms"].as_u64().unwrap_or(0);
+    let s2c_cap = if bp_ms > 0 { 64 } else { 1 << 22 };
+    let (mut c_write, s_read) = tokio::io::duplex(1 << 22);
+    let (s_write, mut c_read) = tokio::io::duplex(s2c_cap);
+    let (service, socket) = LspService::new(IncanLanguageServer::new);
+    let server = tokio::spawn(async move {
+        Server::new(s_read, s_write, socket).serve(service).await;
+    });
+    let sh = Arc::new(Shared { log: Mutex::new(Vec::new()), notify: Notify::new() });
+    let sh2 = sh.clone();
+    let reader = tokio::spawn(async move {
+        loop {
+            if bp_ms > 0 {
+                tokio::time::sleep(Duration::from_millis(bp_ms)).await;
+            }
+            match recv(&mut c_read).await {
+                Some(m) => push(&sh2, "s2c", m),
+                None => break,
+            }
+        }
+    });
+
+    let mut next_id: i64 = 1;
+    let init = json!({"jsonrpc": "2.0", "id": next_id, "method": "initialize", "params": {"capabilities": {}, "processId": null, "rootUri": null}});
+    push(&sh, "c2s", init.clone());
+    send(&mut c_write, &init).await;
+    let init_id = next_id;
+    next_id += 1;
+    let mut status = json!({"initialized": true, "quiescent": true, "probes_answered": true});
+    {
+        let shc = sh.clone();
+        if !wait_until(&sh, move || has_response(&shc, init_id), 60_000).await {
+            status["initialized"] = json!(false);
+        }
+    }
+    let m = json!({"jsonrpc": "2.0", "method": "initialized", "params": {}});
+    push(&sh, "c2s", m.clone());
+    send(&mut c_write, &m).await;
+
+    // phases: each phase is a burst of notifications sent back to back, then wait for quiescence, then probes
+    let phases = req["phases"].as_array().cloned().unwrap_or_default();
+    let mut expected_pub = 0usize;
+    for ph in phases {
+        let events = ph["events"].as_array().cloned().unwrap_or_default();
+        for ev in &events {
+            let uri = ev["uri"].as_str().unwrap_or("file:///d0.incn");
+            let msg = match ev["type"].as_str().unwrap_or("") {
+                "open" => {
+                    expected_pub += 1;
+                    json!({"jsonrpc": "2.0", "method": "textDocument/didOpen", "params": {"textDocument": {"uri": uri, "languageId": "incan", "version": ev["version"], "text": ev["text"]}}})
+                }
+                "change" => {
+                    expected_pub += 1;
+                    json!({"jsonrpc": "2.0", "method": "textDocument/didChange", "params": {"textDocument": {"uri": uri, "version": ev["version"]}, "contentChanges": [{"text": ev["text"]}]}})
+                }
+                "close" => {
+                    expected_pub += 1;
+                    json!({"jsonrpc": "2.0", "method": "textDocument/didClose", "params": {"textDocument": {"uri": uri}}})
+                }
+                "sleep" => {
+                    tokio::time::sleep(Duration::from_millis(ev["ms"].as_u64().unwrap_or(1))).await;
+                    continue;
+                }
+                _ => continue,
+            };
+            push(&sh, "c2s", msg.clone());
+            send(&mut c_write, &msg).await;
+        }
+        // dependency publishes add to the count: the phase says how many extra publishes to expect at least
+        let extra = ph["extra_publishes"].as_u64().unwrap_or(0) as usize;
+        let want = expected_pub + extra;
+        expected_pub = want;
+        {
+            let shc = sh.clone();
+            if !wait_until(&sh, move || count_publishes(&shc) >= want, 60_000).await {
+                status["quiescent"] = json!(false);
+            }
+        }
+        // let any straggler settle (virtual time only)
+        tokio::time::sleep(Duration::from_millis(200)).await;
+        let marker = json!({"jsonrpc": "2.0", "method": "$/verif/quiescent", "params": {"publishes": count_publishes(&sh)}});
+        push(&sh, "c2s", marker);
+        for pr in ph["probes"].as_array().cloned().unwrap_or_default() {
+            let uri = pr["uri"].as_str().unwrap_or("file:///d0.incn");
+            let id = next_id;
+            next_id += 1;
+            let pos = json!({"line": pr["line"].as_u64().unwrap_or(0), "character": pr["character"].as_u64().unwrap_or(0)});
+            let msg = match pr["type"].as_str().unwrap_or("hover") {
+                "hover" => json!({"jsonrpc": "2.0", "id": id, "method": "textDocument/hover", "params": {"textDocument": {"uri": uri}, "position": pos}}),
+                "definition" => json!({"jsonrpc": "2.0", "id": id, "method": "textDocument/definition", "params": {"textDocument": {"uri": uri}, "position": pos}}),
+                _ => json!({"jsonrpc": "2.0", "id": id, "method": "textDocument/completion", "params": {"textDocument": {"uri": uri}, "position": pos}}),
+            };
+            push(&sh, "c2s", msg.clone());
+            send(&mut c_write, &msg).await;
+            let shc = sh.clone();
+            if !wait_until(&sh, move || has_response(&shc, id), 60_000).await {
+                status["probes_answered"] = json!(false);
+            }
+        }
+        // R4: nothing further arrives after quiescence (5 virtual seconds)
+        tokio::time::sleep(Duration::from_millis(5_000)).await;
+        let marker = json!({"jsonrpc": "2.0", "method": "$/verif/phase_end", "params": {"publishes": count_publishes(&sh)}});
+        push(&sh, "c2s", marker);
+    }
+    drop(c_write);
+    let _ = tokio::time::timeout(Duration::from_millis(1000), server).await;
+    reader.abort();
+    #[cfg(incan_verif)]
+    let trace: Vec<Value> = incan::lsp::verif::take_trace().into_iter().map(|(p, v)| json!([p, v])).collect();
+    #[cfg(not(incan_verif))]
+    let trace: Vec<Value> = Vec::new();
+    let log = sh.log.lock().unwrap().clone();
+    json!({"status": status, "log": log, "trace": trace, "hooks": cfg!(incan_verif)})
+}
+
+/// op "lsp"
+pub fn lsp(req: &Value) -> Value {
+    let rt = tokio::runtime::Builder::new_current_thread()
+        .enable_all()
+        .start_paused(true)
+        .build()
+        .expect("runtime");
+    let req = req.clone();
+    match std::panic::catch_unwind(std::panic::AssertUnwindSafe(|| rt.block_on(run_history(req)))) {
+        Ok(v) => v,
+        Err(p) => json!({"panic": crate::front::panic_msg(p)}),
+    }
 }
